@@ -174,13 +174,15 @@ def check_effects(out, tp_id, row, seen, tag='row'):
             return out.check(False, '%s: %s %s' % (tag, why, k), {'row': row, 'expected': exp[k], 'got': len(m[k]),
                                                                   'where': eff['where']})
     if eff['snapshot'] and hits:
-        s = m['snapshots'][0]
-        if row.get('watches') and 'v' not in [w.expression for w in s.watches]:
-            return out.check(False, '%s: configured watch missing on the snapshot' % tag, {'row': row})
-        if not row.get('watches') and any(w.expression == 'v' and w.source == 'WATCH' for w in s.watches):
-            return out.check(False, '%s: watch of another tracepoint on this snapshot' % tag, {'row': row})
-        if eff['log'] and not s.log_msg:
-            return out.check(False, '%s: log message not recorded on the snapshot' % tag, {'row': row})
+        # every fire carries the tracepoint's own watches and log message, not only the first one
+        for nth, s in enumerate(m['snapshots']):
+            which = 'the snapshot' if nth == 0 else 'a later snapshot'
+            if row.get('watches') and 'v' not in [w.expression for w in s.watches]:
+                return out.check(False, '%s: configured watch missing on %s' % (tag, which), {'row': row})
+            if not row.get('watches') and any(w.expression == 'v' and w.source == 'WATCH' for w in s.watches):
+                return out.check(False, '%s: watch of another tracepoint on %s' % (tag, which), {'row': row})
+            if eff['log'] and not s.log_msg:
+                return out.check(False, '%s: log message not recorded on %s' % (tag, which), {'row': row})
     return True
 
 
